@@ -67,8 +67,20 @@ def one_query(ctx, rng, built, s, witness_base, mode="c11", q=None, expected=Non
     from whoosh import query
     P = mode
     kind = rng.random()
+    direct = None
     if q is not None:
         pass
+    elif kind < 0.07:
+        # ArrayUnionMatcher built directly with a SMALL part size: the re-buffering paths (which the default
+        # part size of 2048 documents only reaches in big segments) run on every small corpus
+        subs_q = [model.gen_leaf(rng, fuzzy=False, scoring=True) for _ in range(rng.randint(2, 5))]
+        subs_q = [x for x in subs_q if x is not query.NullQuery] or [query.Term("t", "alfa")]
+        direct = (subs_q, rng.choice([1.0, 1.0, 0.5, 3.0]), rng.choice([1, 2, 3, 7, 16]))
+        q = query.Or(subs_q, boost=direct[1])
+        ctx.count(P + ".direct_arrayunion")
+    elif mode == "c12" and kind < 0.45:
+        q = model.gen_skip_stress(rng)
+        ctx.count(P + ".skip_stress_queries")
     elif kind < 0.12:
         q = gen_span_query(rng)
     elif kind < 0.18 and witness_base.get("sortable"):
@@ -88,8 +100,14 @@ def one_query(ctx, rng, built, s, witness_base, mode="c11", q=None, expected=Non
     cx = s.context(needs_current=needs_current) if scored else s.context(needs_current=needs_current, weighting=None)
 
     def make():
+        if direct is not None:
+            from whoosh.matching import ArrayUnionMatcher
+            ms = [x.matcher(subs, cx) for x in direct[0]]
+            return ArrayUnionMatcher(ms, subs.doc_count_all(), boost=direct[1], scored=scored, partsize=direct[2])
         return q.matcher(subs, cx)
     w = dict(witness_base, query=repr(q), scored=scored, needs_current=needs_current, level=level)
+    if direct is not None:
+        w["direct"] = "ArrayUnionMatcher(partsize=%d, boost=%s)" % (direct[2], direct[1])
     # A negation has no posting value/spans of its own (InverseMatcher delegates value()/spans() to the
     # matcher it negates, which sits on some other document): those reads are not compared there.
     ok0, m_probe = ctx.guard(P + ".reference", w, make)
@@ -135,6 +153,9 @@ def one_query(ctx, rng, built, s, witness_base, mode="c11", q=None, expected=Non
         allow_q = scored
         if mode == "c12":
             prog = monitors.gen_quality_program(rng, ref)
+        elif p == 2 and len(ref) >= 2:
+            prog = monitors.gen_copy_program(rng, ref)
+            ctx.count(P + ".copy_stress_programs")
         else:
             prog = monitors.gen_program(rng, ref, allow_q)
         cur = None
